@@ -236,7 +236,7 @@ fn interrupted_run(r: &Reference, t0: usize, triggers: &[usize], check_entry: bo
                     reti_trigger = true;
                 }
             }
-            let armed = m.bus().is_key_edge_int_enabled() && real::arch(&m).fr & IE != 0 && s.pending_register_write != Some(4);
+            let armed = (m.bus().verif_snapshot().micr & 1 != 0) && real::arch(&m).fr & IE != 0 && s.pending_register_write != Some(4);
             m.trigger_key_interrupt();
             if armed && !m.verif_snapshot().pending_edge_interrupt {
                 verif::set_fuel(None);
@@ -381,7 +381,7 @@ fn check_program(p: &Prog, rng: &mut Rng, quick: bool, rep: &mut Report, only: O
         let t0 = triggers[0];
         let snap0 = r.snaps[t0].verif_snapshot();
         let fr0 = real::arch(&r.snaps[t0]).fr;
-        let micr0 = r.snaps[t0].bus().is_key_edge_int_enabled();
+        let micr0 = (r.snaps[t0].bus().verif_snapshot().micr & 1 != 0);
         let res = catch(|| {
             let mut local = Report::new();
             let out = interrupted_run(&r, t0, triggers, single, &mut local);
@@ -466,7 +466,7 @@ fn check_program(p: &Prog, rng: &mut Rng, quick: bool, rep: &mut Report, only: O
     }
     // pairs in a sliding window; some first triggers are placed where a request is latched but
     // dropped (enable bit set, IE clear)
-    let dropped: Vec<usize> = (0..t_len).filter(|t| r.snaps[*t].bus().is_key_edge_int_enabled() && real::arch(&r.snaps[*t]).fr & IE == 0).collect();
+    let dropped: Vec<usize> = (0..t_len).filter(|t| (r.snaps[*t].bus().verif_snapshot().micr & 1 != 0) && real::arch(&r.snaps[*t]).fr & IE == 0).collect();
     let pair_starts = if quick { 5 } else { 40 };
     for k in 0..pair_starts {
         let t1 = if k % 2 == 0 && !dropped.is_empty() { dropped[rng.usize(dropped.len())] } else { rng.usize(t_len) };
